@@ -122,9 +122,43 @@ class MaskFromFilter(FnSpec):
             ex.oblige(f"post[{'complete-recursive' if ro else 'complete'}:{c}<-{b}]", self.clause(result, self.filt.val.t, c, b, ro))
 
 
+class EmitterInit(FnSpec):
+    """EventEmitter.__init__ keeps the filter it is given: the set of classes queue_event and the mask derivation later
+    work with is exactly the caller's (None stays None)"""
+    relpath, qualname, prop = "watchdog/observers/api.py", "EventEmitter.__init__", PROP
+
+    def __init__(self):
+        from specs import c13
+        self.W = c13.WatchWorld()
+        self.world = self.W
+
+    def globals(self):
+        return {"BaseThread.__init__": lambda ex, recv, a, k, n: None, "super.__init__": lambda ex, recv, a, k, n: None}
+
+    def setup(self, ex):
+        W = self.W
+        self.me = VObj("EventEmitter")
+        self.filt = ex.fresh(W.F, "event_filter")
+        self.q, self.w, self.t = VOpaque("event_queue"), VOpaque("watch"), VOpaque("timeout")
+        return {"self": self.me, "event_queue": self.q, "watch": self.w, "timeout": self.t, "event_filter": VOpt(self.filt.some, VOpaque("listofset", self.filt.val))}
+
+    def post(self, ex, result):
+        H = ex.heap
+        f = H.get((self.me.id, "_event_filter"))
+        if f is None:
+            ex.oblige("post[no filter given: none stored]", z3.Not(self.filt.some))
+        elif isinstance(f, VOpt):
+            ex.oblige("post[the stored filter is exactly the set of classes given (None stays None)]", z3.And(f.some == self.filt.some, z3.Implies(f.some, f.val.t == self.filt.val.t)))
+        elif isinstance(f, VSet):
+            ex.oblige("post[the stored filter is exactly the set of classes given (None stays None)]", z3.And(self.filt.some, f.t == self.filt.val.t))
+        else:
+            ex.oblige("post[the stored filter is a set of classes]", False)
+        ex.oblige("post[queue, watch and timeout stored as given]", H.get((self.me.id, "_event_queue")) is self.q and H.get((self.me.id, "_watch")) is self.w and H.get((self.me.id, "_timeout")) is self.t)
+
+
 def make_specs():
     W = World()
-    out = [MaskFromFilter(W), c04.QueueEvent(PROP)]
+    out = [MaskFromFilter(W), c04.QueueEvent(PROP), EmitterInit()]
     # the translation itself is filter-independent (frame), and two schedules of one path with different filters are
     # different watches with their own emitters (watch identity includes the filter)
     from specs import inotify_emitter, c13
@@ -138,7 +172,8 @@ def make_specs():
 
 
 def lemmas():
-    out = []
+    from specs import c16
+    out = [ob for ob in c16.lemmas() if "EventQueue" in ob.name]   # the shared queue drops only true repeats of (event, watch)
     consts = source.module(FILE_C).constants()
     bad = [k for k, v in T.ABI.items() if consts.get("InotifyConstants." + k) != v]
     out.append(Obligation("lemma[InotifyConstants equal the kernel ABI]", "lemma", [], z3.BoolVal(not bad), ",".join(bad), "InotifyConstants"))
